@@ -17,25 +17,33 @@ from vlib import refber as rb
 LEVEL = "exploration"
 
 
+def long_oid(u):
+    """An OID whose BER contents need a long-form length: up to 128 arcs, many of them multi-octet."""
+    n = u.range(30, 128)
+    return (u.below(3), u.below(40)) + tuple((gen.g_arc(u) if u.bool() else 2 ** 32 - 1 - u.below(3)) for _ in range(n - 2))
+
+
 def build_case(u):
     cfg = gen.g_cfg(u)
     ops = ["get", "get_many", "get_many", "getnext", "getbulk"] if cfg.version != "v1" else ["get", "get_many", "getnext"]
     op = u.choice(ops)
     driver = "nb" if u.below(16) < 14 else u.choice(["sync", "async"])
     forms = {"pdu": gen.g_lenform(u), "vbl": gen.g_lenform(u), "msg": gen.g_lenform(u), "vb": gen.g_lenform(u)}
+    # a legal, unusual v3 reply: non-empty contextName in the scoped PDU (the value must come through all the same)
+    ctx_name = u.take(u.below(24)) if (cfg.version == "v3" and u.below(4) == 0) else b""
     if op == "get":
-        names = [gen.g_oid(u, 2, 20)]
+        names = [long_oid(u) if u.below(10) == 0 else gen.g_oid(u, 2, 20)]
         vals = [gen.g_data_value(u) if u.below(8) else gen.g_null(u)]
-        return {"cfg": cfg, "op": op, "driver": driver, "names": names, "vals": vals, "forms": forms, "base": None, "chunk": 1}
+        return {"cfg": cfg, "op": op, "driver": driver, "names": names, "vals": vals, "forms": forms, "base": None, "chunk": 1, "ctx_name": ctx_name}
     if op == "get_many":
         n = u.below(7) if u.bool(2, 3) else u.below(41)
         names = []
         for _ in range(n):
-            o = gen.g_oid(u, 2, 12)
+            o = long_oid(u) if u.below(24) == 0 else gen.g_oid(u, 2, 12)
             if o not in names:
                 names.append(o)
         vals = [gen.g_data_value(u) if u.below(8) else gen.g_null(u) for _ in names]
-        return {"cfg": cfg, "op": op, "driver": driver, "names": names, "vals": vals, "forms": forms, "base": None, "chunk": 1}
+        return {"cfg": cfg, "op": op, "driver": driver, "names": names, "vals": vals, "forms": forms, "base": None, "chunk": 1, "ctx_name": ctx_name}
     # walks: names under a base, strictly increasing
     base = gen.g_oid(u, 2, 6)
     n = u.range(1, 12)
@@ -45,12 +53,12 @@ def build_case(u):
     names = sorted(base + s for s in sufs)
     vals = [gen.g_data_value(u) for _ in names]
     chunk = u.range(1, 6)
-    return {"cfg": cfg, "op": op, "driver": driver, "names": names, "vals": vals, "forms": forms, "base": base, "chunk": chunk}
+    return {"cfg": cfg, "op": op, "driver": driver, "names": names, "vals": vals, "forms": forms, "base": base, "chunk": chunk, "ctx_name": ctx_name}
 
 
 def describe(c):
     return {"cfg": c["cfg"].describe(), "op": c["op"], "driver": c["driver"], "forms": c["forms"], "base": c["base"],
-            "chunk": c["chunk"], "varbinds": [[rb.oid_text(n), v.kind, v.note, v.tlv, repr(v.py)] for n, v in zip(c["names"], c["vals"])],
+            "chunk": c["chunk"], "ctx_name": c.get("ctx_name", b""), "varbinds": [[rb.oid_text(n), v.kind, v.note, v.tlv, repr(v.py)] for n, v in zip(c["names"], c["vals"])],
             "_cfg": gen.cfg_to_json(c["cfg"]), "_names": [list(n) for n in c["names"]], "_tlvs": [v.tlv for v in c["vals"]],
             "_pys": [py_to_json(v) for v in c["vals"]], "_kinds": [v.kind for v in c["vals"]]}
 
@@ -81,7 +89,7 @@ def execute(G, c):
     def handler(d):
         req = ag.decode_request(cfg, d, strict=False)
         if op in ("get", "get_many"):
-            return [ag.build_reply(cfg, req, vbs, forms=forms)]
+            return [ag.build_reply(cfg, req, vbs, forms=forms, ctx_name=c.get("ctx_name", b""))]
         # walk: serve next chunk, then endOfMibView
         i = state["pos"]
         if i >= len(vbs):
@@ -89,7 +97,7 @@ def execute(G, c):
             return [ag.build_reply(cfg, req, [rb.varbind(rb.enc_oid(last), rb.tlv(rb.T_ENDOFMIBVIEW, b""))], forms=forms)]
         k = 1 if op == "getnext" else c["chunk"]
         state["pos"] = i + k
-        return [ag.build_reply(cfg, req, vbs[i:i + k], forms=forms)]
+        return [ag.build_reply(cfg, req, vbs[i:i + k], forms=forms, ctx_name=c.get("ctx_name", b""))]
 
     if op == "get":
         call = ("get", "1.3.6.1.2.1.1.1.0")
@@ -162,7 +170,7 @@ def replay(rep, case, body=None):
     G = drivers.load()
     vals = [gen.Val(k, py_from_json(p), t) for k, p, t in zip(case["_kinds"], case["_pys"], case["_tlvs"])]
     c = {"cfg": gen.cfg_from_json(case["_cfg"]), "op": case["op"], "driver": case["driver"], "forms": case["forms"],
-         "base": tuple(case["base"]) if case["base"] else None, "chunk": case["chunk"],
+         "base": tuple(case["base"]) if case["base"] else None, "chunk": case["chunk"], "ctx_name": case.get("ctx_name", b""),
          "names": [tuple(n) for n in case["_names"]], "vals": vals}
     try:
         execute(G, c)
